@@ -27,13 +27,14 @@ func storesTo(fn *ssa.Function, typ, field string) []*ssa.Store {
 }
 
 func C04(c *Ctx) {
-	c.R.Explanation = "Decides structural necessary conditions of the documented transition rule on the SSA form of Spec.Step, Branches.consider and Branch.try: (R1) branches are tried in ascending slice order and the first non-nil result or error leaves the loop; (R2) with a guard the bindings of the next state derive only from the guard execution's non-nil Bs, without a guard only from the single match result — the input bindings and the raw candidate never become the result; (R3) the 'consumed' flag is exactly Type==\"message\", Stride.Consumed is stored only under it, the value matched against is the pending message under the flag and the current bindings otherwise, a missing message returns before any branch is tried, and the branching-type constants form one set; (R4) the action runs before the branches and on its success the bindings given to branch evaluation are the execution's Bs; (R5) the branch target is resolved from the same bindings that become the next state's bindings; (R6) no 'no match' exit precedes the matcher: every plain nil-state return of try is after the Match call (or on the pattern-less path). Agreement with a reference interpreter on generated specs is not decided."
+	c.R.Explanation = "Decides structural necessary conditions of the documented transition rule on the SSA form of Spec.Step, Branches.consider and Branch.try: (R1) branches are tried in ascending slice order and the first non-nil result or error leaves the loop; (R2) with a guard the bindings of the next state derive only from the guard execution's non-nil Bs, without a guard only from the single match result — the input bindings and the raw candidate never become the result; (R3) the 'consumed' flag is exactly Type==\"message\", Stride.Consumed is stored only under it, the value matched against is the pending message under the flag and the current bindings otherwise, a missing message returns before any branch is tried, and the branching-type constants form one set; (R4) the action runs before the branches and on its success the bindings given to branch evaluation are the execution's Bs; (R5) the branch target is resolved from the same bindings that become the next state's bindings; (R6) no 'no match' exit precedes the matcher: every plain nil-state return of try is after the Match call (or on the pattern-less path). (R7) an ECMAScript guard that rejects, or an action that fails, cannot have changed the current bindings in place, because nothing reachable from them is reachable from what the script is given. Agreement with a reference interpreter on generated specs is not decided."
 	c.R.Rule("C04-R1", "E3", "listed order, first success wins", 3)
 	c.R.Rule("C04-R2", "E5", "guard gating", 2)
 	c.R.Rule("C04-R3", "E5+E6", "consumption discipline", 5)
 	c.R.Rule("C04-R4", "E5", "action result replaces bindings", 2)
 	c.R.Rule("C04-R5", "E5", "target resolved from the resulting bindings", 1)
 	c.R.Rule("C04-R6", "E3", "only the matcher and the guard decide a branch", 2)
+	c.R.Rule("C04-R7", "E1", "a guard or action cannot change the current bindings in place (scripts see copies)", 1)
 	step := c.fn("core", "Spec", "Step")
 	consider := c.fn("core", "Branches", "consider")
 	try := c.fn("core", "Branch", "try")
@@ -43,6 +44,12 @@ func C04(c *Ctx) {
 	}
 	c.R.Fn(fname(step), fname(consider), fname(try), fname(target))
 
+	// ------------------------------------------------------------ R7
+	if ea, _ := c.ecmaAnalysis(); ea != nil {
+		if c.scriptIsolation("C04-R7", ea, true) == 0 {
+			c.R.Break("C04-R7: no value handed to the script runtime found")
+		}
+	}
 	// ------------------------------------------------------------ R1 (consider)
 	var tryCalls []*ssa.Call
 	ssau.Instrs(consider, func(in ssa.Instruction) {
